@@ -97,6 +97,15 @@ func (c *ExecuteCtx) GetChunkFieldFinalResult(name string) ([]any, bool) {
 	return val, have
 }
 
+// ClearRowCache drops the per-row field results, it must be called before
+// a different row is evaluated with the same context
+func (c *ExecuteCtx) ClearRowCache() {
+	if c == nil || !c.EnableCache {
+		return
+	}
+	clear(c.FieldCaches)
+}
+
 func (c *ExecuteCtx) UpdateHit() {
 	c.Hit++
 }
